@@ -166,6 +166,30 @@ def check(ctx: Ctx) -> list[RuleResult]:
     else:
         r1.fail(f"{pa.short}:address-columns", pa.loc(), f"pkt_addrs no longer cuts three {aw}-char addresses every {step} columns")
     r1.info = {"layout": dict(zip(names, cl))}
+    # a truncating slice on the payload of a frame being assembled must keep every legal payload: >= the regex's maximum width
+    pay_items: list[Any] = []
+    for tok in reversed(list(_P.parse(cre))):
+        if tok[0] is _C.LITERAL and tok[1] == 32:
+            break
+        pay_items.insert(0, tok)
+    pay_max = _width(pay_items)[1]
+    fc = repo.func("ramses_tx.command.Command.from_cli")
+    trunc = [n for n in own_nodes(fc.node) if isinstance(n, ast.Assign) and len(n.targets) == 1 and norm(n.targets[0]) == "payload"]
+    if not trunc or pay_max is None:
+        raise AnalysisError("Command.from_cli: the payload part / the regex's payload width was not found")
+    for n in trunc:
+        r1.instances += 1
+        r1.nontrivial += 1
+        v = n.value
+        if isinstance(v, ast.Subscript) and isinstance(v.slice, ast.Slice):
+            hi = v.slice.upper.value if isinstance(v.slice.upper, ast.Constant) else None
+            lo = v.slice.lower
+            if lo is None and isinstance(hi, int) and hi >= pay_max:
+                r1.ok({"site": f"{fc.short}: {norm(n)}", "keeps": f"{hi} >= {pay_max} hex characters (the regex's maximum payload)"})
+            else:
+                r1.fail(f"{fc.short}:payload-truncated", fc.loc(n), f"`{norm(n)}` cuts the payload to {hi} characters, but COMMAND_REGEX allows payloads of up to {pay_max} hex characters ({pay_max // 2} bytes): a longer legal payload is silently shortened into a different frame")
+        else:
+            r1.ok({"site": f"{fc.short}: {norm(n)}", "keeps": "the whole payload part"})
     out.append(r1)
 
     # ---- R2 ---------------------------------------------------------------------------
